@@ -433,6 +433,21 @@ def rule_iop(repo):
             mine = own(g)
             stem = lambda z: {x.rstrip('_').lower() for x in z}
             ok = bool(stem(tgt) & stem(mine)) or op in mine
+        # same operand order as the plain operator: X *= Y is X * Y (self first), never Y * X
+        if ok and g is not None:
+            def first_two(fn_):
+                for c in paths.calls_in(fn_.node):
+                    if isinstance(c.func, ast.Attribute) and dotted(c.func.value) in ('self', 'self.ltype') and len(c.args) >= 2 and c.func.attr.rstrip('_').lower() in {x.rstrip('_').lower() for x in tgt}:
+                        return [dotted(a_) for a_ in c.args[:2]]
+                return None
+            a0, a1 = first_two(f), first_two(g)
+            if a0 is not None and a1 is not None:
+                me0, me1 = f.pos_params[0], g.pos_params[0]
+                same = (a0[0] == me0) == (a1[0] == me1)
+                res.inst({'class': ci.fq, 'operator': iop, 'operands': a1, 'same order as ' + op: same}, (ci.fq, iop, 'order'))
+                if not same:
+                    res.add(Finding('C03.IOP', g, '%s calls the Lie operation with the operands %s, %s calls it with %s: the augmented assignment computes the product in the '
+                                    'other order (Y X instead of X Y), equal only for commuting elements' % (op, a0, iop, a1), construct='operand order of ' + iop))
         res.inst({'class': ci.fq, 'operator': op, 'delegates_to': sorted(tgt), 'in-place twin': iop, 'overridden with the same semantics': ok}, (ci.fq, op))
         if not ok:
             res.add(Finding('C03.IOP', g if g is not None else f, 'LieTensor overrides %s with Lie semantics (%s) but %s: the augmented assignment resolves to '
